@@ -171,6 +171,11 @@ namespace sim
    void log_action( Ev k, std::uint32_t rule, std::uint8_t fam, const Snap& begin, std::uint32_t e, std::uint32_t chash, std::uint32_t sid, bool result )
    {
       Snap s = begin;
+      if( k == Ev::X_APPLY ) {
+         // helper action classes are identified by a small id, not by a registered rule
+         s.depth = rule;
+         rule = 0;
+      }
       log_event( k, rule, ( result ? F_RESULT : 0 ), fam, 0, s, sid, ( std::uint64_t( begin.byte ) << 32 ) | e, chash );
    }
 
